@@ -178,8 +178,11 @@ func (o *OracleC05) AfterCall(n *Node, st *Step) {
 				last = &st.Outs[i]
 			}
 		}
-		if !seen && last != nil && last.H == d.BlockIndex && last.V == d.ViewNumber {
-			full := s.sc.TPBAt(d.BlockIndex) << (uint(d.ViewNumber) + 1)
+		ref := refTimers(s.sc.TPBAt(d.BlockIndex), len(d.Validators))
+		if !seen && last != nil && last.H == d.BlockIndex && last.V == d.ViewNumber && (!ref.ok || int(d.ViewNumber) >= len(ref.backV) || ref.backV[d.ViewNumber] == 0) {
+			s.note("no_timer_reference")
+		} else if !seen && last != nil && last.H == d.BlockIndex && last.V == d.ViewNumber {
+			full := ref.backV[d.ViewNumber]
 			if last.D < full {
 				o.viol(n, "timer_shortened_without_previous_proposal", "height %d view %d: the node never held a proposal of height %d, yet the timer armed on entering the view is %v instead of the full %v", d.BlockIndex, d.ViewNumber, d.BlockIndex-1, last.D, full)
 				return
@@ -305,15 +308,20 @@ func (o *OracleC05) AfterCall(n *Node, st *Step) {
 				}
 			}
 			if last != nil && last.H == tip+1 && last.V == 0 && !d.CommitSent() && !d.PreCommitSent() && !d.RequestSentOrReceived() {
-				full := s.sc.TPBAt(tip + 1)
+				ref := refTimers(s.sc.TPBAt(tip+1), nv)
+				full := ref.prim0
 				if s.sc.IndexAt(tip+1, n.ident) != primaryOf(tip+1, 0, nv) {
-					full <<= 1
+					full = ref.back0
 				}
-				if last.D < full {
+				if !ref.ok {
+					s.note("no_timer_reference")
+				} else if last.D < full {
 					o.viol(n, "timer_shortened_by_older_height", "height %d: the node never held a proposal of height %d, yet the timer armed by its initialisation is %v instead of the full %v", tip+1, tip, last.D, full)
 					return
 				}
-				s.note("full_timer_after_unseen_height")
+				if ref.ok {
+					s.note("full_timer_after_unseen_height")
+				}
 			}
 		}
 	}
@@ -329,11 +337,14 @@ func (o *OracleC05) AfterCall(n *Node, st *Step) {
 			}
 		}
 		if last != nil && last.H == tip+1 && last.V == 0 && !d.CommitSent() && !d.PreCommitSent() && !d.RequestSentOrReceived() {
-			full := s.sc.TPBAt(tip + 1)
+			ref := refTimers(s.sc.TPBAt(tip+1), nv)
+			full := ref.prim0
 			if s.sc.IndexAt(tip+1, n.ident) != primaryOf(tip+1, 0, nv) {
-				full <<= 1
+				full = ref.back0
 			}
-			if last.D > full {
+			if !ref.ok {
+				s.note("no_timer_reference")
+			} else if last.D > full {
 				o.viol(n, "timer_longer_than_full_after_reset", "height %d: the timer armed by the initialisation is %v, the full one is %v", tip+1, last.D, full)
 				return
 			}
